@@ -42,6 +42,10 @@ def atoms():
         for mx in LENS:
             out.append(['len_range', mn, mx])
     out += [['pos'], ['neg'], ['nonneg'], ['nonpos'], ['finite'], ['empty'], ['nonempty']]
+    # one-sided ranges over ordered NON-numeric values, and integer bounds no float can hold
+    out += [['val_range', 'ab', None], ['val_range', None, 'ab'], ['val_range', ['date', '2020-01-01'], None],
+            ['val_range', None, ['date', '2020-01-01']], ['val_range', 2 ** 53 + 1, None], ['val_range', None, 2 ** 53 + 1],
+            ['val_range', -(2 ** 53) - 1, 2 ** 53 + 1]]
     for s in SHAPES:
         out.append(['shape', s])
         out.append(['bcast', s])
@@ -126,10 +130,18 @@ def shape_obj(s):
     return list(s[1:]) if s and s[0] == 'list' else tuple(s)
 
 
+def _bound(b):
+    """Bounds are kept JSON-able in the expression: ['date', iso] stands for the date."""
+    if isinstance(b, list) and b and b[0] == 'date':
+        import datetime
+        return datetime.date.fromisoformat(b[1])
+    return b
+
+
 def build_cond(A, e):
     h = e[0]
     if h == 'val_range':
-        return A.val_range(min=e[1], max=e[2])
+        return A.val_range(min=_bound(e[1]), max=_bound(e[2]))
     if h == 'len_range':
         return A.len_range(min=e[1], max=e[2])
     if h in ('pos', 'neg', 'nonneg', 'nonpos', 'finite', 'empty', 'nonempty'):
@@ -185,9 +197,9 @@ def _ev(e, x):
     if h == 'val_range':
         ok = True
         if e[1] is not None:
-            ok = ok and bool(x >= e[1])
+            ok = ok and bool(x >= _bound(e[1]))
         if ok and e[2] is not None:
-            ok = ok and bool(x <= e[2])
+            ok = ok and bool(x <= _bound(e[2]))
         return ok
     if h == 'len_range':
         ok = True
@@ -247,12 +259,27 @@ def _ev(e, x):
 
 # ------------------------------------------------------------------ inner types and grids
 
+_IE: t.List[t.Any] = []
+
+
+def _int_enum():
+    if not _IE:
+        import enum
+        _IE.append(enum.IntEnum('BigIntEnum', {'ONE': 1, 'HUGE': 10 ** 400}))
+    return _IE[0]
+
+
 def inner_types():
     import numpy
     return {
-        'int': (int, [-1, 0, 1, 4, 5, 6, 10 ** 20, -10 ** 20, 10 ** 400]),      # (10**400: beyond any float, still a finite number)
+        'int': (int, [-1, 0, 1, 4, 5, 6, 10 ** 20, -10 ** 20, 10 ** 400,      # (10**400: beyond any float, still a finite number)
+                      2 ** 53, 2 ** 53 + 1, 2 ** 53 + 2, -(2 ** 53) - 1, -(2 ** 53) - 2]),
+        # instances of int SUBCLASSES are ints too: a declared subclass, and an IntEnum with a member beyond the float range
+        'sub_int': (grammar.SubInt, [-1, 0, 5, 10 ** 400, 2 ** 53 + 1]),
+        'int_enum': (_int_enum(), [1, 10 ** 400, 2]),
+        'date': (__import__('datetime').date, ['2019-12-31', '2020-01-01', '2024-05-01', 'x']),
         'float': (float, [-1, 0, 1, 4, 5, 6, 2.5, -0.0, 5.0, values.INF, -values.INF, values.NAN, 1e300, 4.999999999]),
-        'str': (str, ['', 'a', 'ab', 'abc']),
+        'str': (str, ['', 'a', 'ab', 'abc', 'b']),
         'list_int': (t.List[int], [[], [1], [1, 2], [1, 2, 3], [0]]),
         'set_int': (t.Set[int], [[], [1], [1, 2], [1, 2, 3], [1, 1]]),
         'dict_str_int': (t.Dict[str, int], [{}, {'a': 1}, {'a': 1, 'b': 2}, {'a': 1, 'b': 2, 'c': 3}]),
